@@ -740,13 +740,46 @@ def _fresh(ctx) -> None:
         "table.Table.__setattr__": "the `is not None` initialisation test only",
     }
     n_reads = 0
+
+    def row_receiver(f, name, depth=0):
+        """Is the parameter `name` of f always a Row (whose map is its own snapshot taken at creation)?  A method of Row reading
+        its receiver; or a module-level helper every call of which, anywhere in the package, passes such a receiver there."""
+        if f.cls == "Row" and f.parent is None:
+            return bool(f.params) and name == f.params[0]
+        if f.cls is not None or f.parent is not None or depth > 3 or name not in f.params:
+            return False
+        pos = f.params.index(name)
+        calls = []
+        for q2, g in prog.functions.items():
+            if isinstance(g.node, ast.Lambda):
+                continue
+            if g.module != f.module:
+                # a helper imported elsewhere under its name: any mention at all is a use we cannot see through
+                if any(isinstance(n, ast.Name) and n.id == f.name for n in walk_no_nested(g.node)):
+                    return False
+                continue
+            for n in walk_no_nested(g.node):
+                if isinstance(n, ast.Name) and n.id == f.name and isinstance(n.ctx, ast.Load):
+                    par = prog.parent(n)
+                    if not (isinstance(par, ast.Call) and par.func is n):
+                        return False
+                    calls.append((g, par))
+        if not calls:
+            return False
+        for g, c in calls:
+            arg = c.args[pos] if pos < len(c.args) and not any(isinstance(a, ast.Starred) for a in c.args) else \
+                next((k.value for k in c.keywords if k.arg == name), None)
+            if not (isinstance(arg, ast.Name) and row_receiver(g, arg.id, depth + 1)):
+                return False
+        return True
+
     for q, f in sorted(prog.functions.items()):
         if isinstance(f.node, ast.Lambda):
             continue
         for n in walk_no_nested(f.node):
             if isinstance(n, ast.Attribute) and n.attr == "_column_map" and isinstance(n.ctx, ast.Load):
                 n_reads += 1
-                ok = q in allowed_loads
+                ok = q in allowed_loads or (isinstance(n.value, ast.Name) and row_receiver(f, n.value.id))
                 if q == "table.Table.__setattr__":
                     par = prog.parent(n)
                     ok = isinstance(par, ast.Compare) and short(par) == "self._column_map is not None"
